@@ -154,7 +154,7 @@ def judge(scratch: str, case: dict) -> tuple[list[tuple[str, str]], dict]:
 
 
 def shard(ctx: core.Ctx) -> None:
-	exclude = core.frontend_exclusions() | frozenset(ctx.excluded) | frozenset({'optional'})  # Optional values are typed but not transpiled (no None on the C++ side)
+	exclude = core.frontend_exclusions() | frozenset(ctx.excluded) | frozenset({'optional', 'iterator-class'})  # Optional values are typed but not transpiled (no None on the C++ side)
 
 	def body(case: dict) -> None:
 		fails, info = judge(ctx.scratch, case)
